@@ -163,11 +163,13 @@ def condReasonIs (cs : List Cond) (ty reason : Nat) : Bool :=
 
 inductive ActK where
   | jobUpdate | statusUpdate | resvCreate | resvUpdate | resvDelete | evict | preempt
+  | getJob | getPod | getResv | getBPod     -- API reads, logged only by the extended model (Model/C17Read.lean)
 deriving DecidableEq, Repr
 
 def ActK.code : ActK → Nat
   | .jobUpdate => 1 | .statusUpdate => 2 | .resvCreate => 3 | .resvUpdate => 4
   | .resvDelete => 5 | .evict => 6 | .preempt => 7
+  | .getJob => 8 | .getPod => 9 | .getResv => 10 | .getBPod => 11
 
 structure Act where
   k : ActK
